@@ -188,6 +188,9 @@ def classify_exc(exc, case, res):
         return "ref_urlparse_crash"
     if typ == "OSError" and site in ("__init__.py:_build_api", "__init__.py:_build_models") and exc[3].startswith("[Errno 36]"):
         return "name_too_long_oserror"
+    if typ == "UndefinedError" and site == "templates/model.py.jinja:template" and "has no attribute 'transform_multipart'" in exc[3] \
+            and b"const" in raw_bytes(case) and b"multipart/form-data" in raw_bytes(case):
+        return "const_multipart_crash"
     return None
 
 
@@ -433,13 +436,13 @@ def loop_docs():
 
 
 # ------------------------------------------------------------------ CLI end to end
-def run_cli(doc_bytes, suffix, fow, mode, overwrite, limit=LIMIT):
+def run_cli(doc_bytes, suffix, fow, mode, overwrite, limit=LIMIT, literal_enums=False):
     root = Path(tempfile.mkdtemp(prefix="opc_c06cli_"))
     try:
         f = root / ("doc" + suffix)
         f.write_bytes(doc_bytes)
         cfg = root / "config.yaml"
-        cfg.write_text("post_hooks: []\n")
+        cfg.write_text("post_hooks: []\n" + ("literal_enums: true\n" if literal_enums else ""))
         out = root / ("nope/out" if mode == "missing_parent" else "out")
         if mode == "exists":
             out.mkdir()
@@ -481,7 +484,7 @@ def run(run, tier, replay=None):
     run.rule = ("handle: every ERROR/WARNING sequence up to length 3 x fail_on_warning in {False, True, default} (exhaustive) + random lists to length 13 of the four error classes with "
                 "explicit or default levels; generate/cli: valid documents (sink, atlas, corpus, random), their single and double node mutations (replace by wrong type / null / empty / 17 "
                 "$ref forms / 50 contradictory keyword sets, delete, duplicate, rename, mutual $ref in every component section, subtree swap), raw junk offered as .json and .yaml "
-                "(fixed hostile texts, truncations and byte mutations of valid texts, random bytes), JSON values and near-miss dicts as documents, x output directory fresh / existing / "
+                "(fixed hostile texts, truncations and byte mutations of valid texts, random bytes), JSON values and near-miss dicts as documents, class-name collision documents across kinds (component / inline / items / union member / additionalProperties / parameter / body / response / title x model / enum / int enum / union / array / allOf, both declaration orders, with and without literal_enums), x output directory fresh / existing / "
                 "missing parent.  A case is non-trivial when the input is not a valid document that generates without diagnostics; distinct = sha1 of the case.")
     run.assumptions += [
         "C06 is partial: 'no Python exception for any byte string' is NOT a theorem; it rests on the junk/mutation exploration whose input distribution is input_histogram",
@@ -522,6 +525,12 @@ def run(run, tier, replay=None):
         cases.append(doccase(nid("g"), f"valid:{lab}:missing-parent", d, out="missing_parent"))
     for lab, d in body_ref_docs() + loop_docs():
         cases.append(doccase(nid("g"), f"shape:{lab}", d))
+    # class-name collisions across kinds (model / enum / union / ... sharing Schemas.classes_by_name), both orders, with and
+    # without literal_enums (EnumProperty.build and LiteralEnumProperty.build carry the same table lookup)
+    for lab, d in mutate.collision_docs():
+        cases.append(doccase(nid("k"), lab, d))
+        if thorough or rng.random() < 0.35:
+            cases.append(doccase(nid("k"), lab + ":literal", d, literal_enums=True))
     # junk texts
     valid_texts = [json.dumps(bases[0][1]), json.dumps(bases[-1][1], indent=1)]
     junk = []
@@ -557,6 +566,8 @@ def run(run, tier, replay=None):
     cases.append(doccase(nid("w"), "witness:default_nonfinite_crash", S({"I": {"type": "integer", "default": "inf"}})))
     cases.append(doccase(nid("w"), "witness:merge_default_crash", S({"P": {"type": "object", "properties": {"a": {"type": "integer"}}}, "Q": {"type": "object", "properties": {"a": {"type": "number", "default": "inf"}}},
                                                                     "C": {"allOf": [{"$ref": R + "P"}, {"$ref": R + "Q"}]}})))
+    cases.append(doccase(nid("w"), "witness:const_multipart_crash", {"openapi": "3.1.0", "info": {"title": "t", "version": "1"}, "paths": {"/u": {"post": {
+        "requestBody": {"content": {"multipart/form-data": {"schema": {"type": "object", "properties": {"p": {"const": "x"}}}}}}, "responses": {"200": {"description": "ok"}}}}}}))
     cases.append(hexcase(nid("w"), "witness:scalar_document_crash", b"5", ".json"))
     cases.append(hexcase(nid("w"), "witness:load_depth_crash", b"[" * 100000, ".json"))
     cases.append(doccase(nid("w"), "witness:missing_parent_dir", bases[0][1], out="missing_parent"))
@@ -572,7 +583,7 @@ def run(run, tier, replay=None):
 def evaluate(run, cases, pure_cases, thorough, n_cli=0, replaying=False):
     rng = run.rng
     by_id = {c["id"]: c for c in cases + pure_cases}
-    send = [{k: v for k, v in c.items() if k not in ("doc", "label", "base")} for c in cases + pure_cases]
+    send = [{k: v for k, v in c.items() if k not in ("doc", "label", "base")} for c in cases + pure_cases]   # literal_enums travels with the case
     results = pool_run(send, jobs=14)
 
     terms, owners = [], []     # Coq terms and what they belong to
@@ -683,7 +694,7 @@ def evaluate(run, cases, pure_cases, thorough, n_cli=0, replaying=False):
             futs = {}
             for c, fow in cli_jobs:
                 data = bytes.fromhex(c["hex"]) if "hex" in c else c["text"].encode("utf-8", "surrogatepass")
-                futs[ex.submit(run_cli, data, c.get("suffix", ".json"), fow, c.get("out", "fresh"), c.get("overwrite", False))] = (c, fow)
+                futs[ex.submit(run_cli, data, c.get("suffix", ".json"), fow, c.get("out", "fresh"), c.get("overwrite", False), LIMIT, bool(c.get("literal_enums", False)))] = (c, fow)
             for f in cf.as_completed(futs):
                 c, fow = futs[f]
                 cr = f.result()
@@ -758,7 +769,7 @@ def evaluate(run, cases, pure_cases, thorough, n_cli=0, replaying=False):
             continue
         done_sites.add(key)
         if "doc" in c and isinstance(c["doc"], (dict, list)):
-            sj.append({"kind": "shrink", "id": "s%d" % len(sj), "doc": c["doc"], "site": r["exc"][:2], "suffix": c.get("suffix", ".json"), "out": c.get("out", "fresh"), "budget": 25 if thorough else 12, "_key": key})
+            sj.append({"kind": "shrink", "id": "s%d" % len(sj), "doc": c["doc"], "site": r["exc"][:2], "suffix": c.get("suffix", ".json"), "out": c.get("out", "fresh"), "literal_enums": bool(c.get("literal_enums", False)), "budget": 25 if thorough else 12, "_key": key})
     sres = pool_run([{k: v for k, v in j.items() if k != "_key"} for j in sj], jobs=8) if sj else {}
     shrunk = {tuple(j["_key"]): sres.get(j["id"], {}).get("doc") for j in sj}
     reported = set()
@@ -771,7 +782,7 @@ def evaluate(run, cases, pure_cases, thorough, n_cli=0, replaying=False):
                    "case": {k: v for k, v in c.items() if k != "doc"}}
         if shrunk.get(key) is not None:
             payload["shrunk_document"] = shrunk[key]
-            payload["case"] = {"kind": "gen", "text": json.dumps(shrunk[key]), "suffix": c.get("suffix", ".json"), "out": c.get("out", "fresh"), "label": "shrunk:" + str(c.get("label"))}
+            payload["case"] = {"kind": "gen", "text": json.dumps(shrunk[key]), "suffix": c.get("suffix", ".json"), "out": c.get("out", "fresh"), "literal_enums": bool(c.get("literal_enums", False)), "label": "shrunk:" + str(c.get("label"))}
         run.violation("oracle", payload)
     run.extra["crash_sites"] = hist
     run.extra["rejected_documents"] = rejected_total
